@@ -237,8 +237,8 @@ def _range_eval(case, ctx):
         out = _get_omkm_range(objs=objs, delimiter=d, format=case['form'])
     except (ValueError, TypeError) as e:
         ctx.evals()
-        ctx.true('encodable ids are not rejected', not all_ok, sig, case, '%s: %s' % (type(e).__name__, str(e)[:120]),
-                 'range notation')
+        ctx.true('encodable ids are not rejected', not all_ok, sig, case,
+                 '%s: %s' % (type(e).__name__, re.sub(r' at 0x[0-9a-f]+', '', str(e))[:160]), 'range notation')
         if not all_ok:
             ctx.tag('bad:rejected')
         return
